@@ -326,6 +326,9 @@ func (e *Engine) verifyFunction(ct *Contract, prop string, tier string) *fnResul
 			for _, l := range ct.Lets {
 				if !usesPost(l.Node) {
 					env.vars[l.Name] = env.eval(l.Node)
+					if t := env.typeOf(l.Node); t != nil {
+						env.typs[l.Name] = t
+					}
 				}
 			}
 			vacuousShape := false
@@ -400,12 +403,17 @@ func (e *Engine) verifyFunction(ct *Contract, prop string, tier string) *fnResul
 				env := &rEnv{e: e, pre: preX, post: ex.st, vars: copyVars(vars), typs: typs, specs: e.contracts.specs}
 				e.bindResults(env, fn, ex.ret)
 				for _, l := range ct.Lets {
-					env.vars[l.Name] = env.eval(l.Node)
+					v := env.eval(l.Node)
 					if env.err != nil {
-						res.Notes = append(res.Notes, fmt.Sprintf("BROKEN let %s: %v", l.Name, env.err))
-						o := getObl(ct.Short+".contract-wellformed", "wellformed", l.Src, structProps, ct.Line)
-						o.Status, o.Detail = "broken", env.err.Error()
+						// not evaluable on this path (e.g. it names a call that did not happen): clauses that use it
+						// fall under the rule for non-evaluable consequents
 						env.err = nil
+						delete(env.vars, l.Name)
+						continue
+					}
+					env.vars[l.Name] = v
+					if t := env.typeOf(l.Node); t != nil {
+						env.typs[l.Name] = t
 					}
 				}
 				var goals []pathGoal
